@@ -3,6 +3,8 @@ package c01
 import (
 	"bytes"
 	"fmt"
+	"net"
+	"sync"
 	"time"
 
 	"verif/harness/api"
@@ -42,7 +44,85 @@ func nowCall(op string, serial uint32) api.Case {
 	return api.Case{Call: c, V: api.Variant{WeekPresent: [7]bool{true, true, true, true, true, true, true}, DoorsPresent: [4]bool{true, true, true, true}}}
 }
 
+// closed-port: nothing listens at the controller's address (it is restarting): the host answers the request with ICMP port
+// unreachable. A raw ICMP socket (root only; skipped otherwise) counts those answers - each one quotes the datagram it refuses
+// - for the call's destination port: one call, one datagram, whether or not the bind port is fixed.
+func runClosedPort(c slowWire) (*rp.Fail, bool) {
+	ic, err := net.ListenIP("ip4:icmp", &net.IPAddr{IP: net.IPv4(127, 0, 0, 1)})
+	if err != nil {
+		return nil, true
+	}
+	defer ic.Close()
+	ip := [4]byte{127, 0, 0, 1}
+	port, err := farm.FreePort(ip)
+	if err != nil {
+		return nil, true
+	}
+	serial := uint32(405419896)
+	cfg := hook.ClientCfg{TimeoutMs: c.TimeoutMs, BindIP: ip, Debug: c.Debug, Devices: []hook.DeviceCfg{{Name: "w", Serial: serial, HasAddr: true, IP: ip, Port: port, Protocol: "udp"}}}
+	if c.Warm > 0 { // (used as the flag 'fixed bind port' here)
+		bp, err := farm.FreePort(ip)
+		if err != nil {
+			return nil, true
+		}
+		cfg.BindPort = bp
+	}
+	var mu sync.Mutex
+	refused := 0
+	stop := make(chan struct{})
+	go func() {
+		buf := make([]byte, 1500)
+		for {
+			ic.SetReadDeadline(time.Now().Add(50 * time.Millisecond))
+			n, _, err := ic.ReadFrom(buf)
+			select {
+			case <-stop:
+				return
+			default:
+			}
+			if err != nil || n < 8+20+8 {
+				continue
+			}
+			// ICMP type 3 (destination unreachable) code 3 (port): the payload quotes the IP header and the UDP header
+			if buf[0] != 3 || buf[1] != 3 {
+				continue
+			}
+			ihl := int(buf[8]&0x0f) * 4
+			if n < 8+ihl+4 || buf[8+9] != 17 {
+				continue
+			}
+			if dst := int(buf[8+ihl+2])<<8 | int(buf[8+ihl+3]); dst == int(port) {
+				mu.Lock()
+				refused++
+				mu.Unlock()
+			}
+		}
+	}()
+	client := hook.Real(cfg)
+	cs := nowCall(c.Op, serial)
+	res := api.Invoke(client, cs)
+	time.Sleep(time.Duration(c.TimeoutMs)*time.Millisecond + 150*time.Millisecond) // (anything scheduled for later has happened by now)
+	close(stop)
+	if res.Panic != nil {
+		return rp.Failf("wire/panic", "%s panicked: %v", c.Op, res.Panic), false
+	}
+	mu.Lock()
+	n := refused
+	mu.Unlock()
+	if n == 0 {
+		return nil, true // (the raw socket saw nothing at all: not judged)
+	}
+	ev.Class("wire/closed-port/refusals-counted-on-a-raw-icmp-socket", 1)
+	if n != 1 {
+		return rp.Failf("wire/udp/send-count/closed-port", "%s to a controller address where nothing listens (fixed bind port: %v): the host refused %d datagrams of this call (ICMP port unreachable, counted on a raw socket); exactly one request leaves per call", c.Op, cfg.BindPort != 0, n), false
+	}
+	return nil, false
+}
+
 func runSlowWire(c slowWire) (*rp.Fail, bool) {
+	if c.Kind == "closed-port" {
+		return runClosedPort(c)
+	}
 	f := farm.New()
 	defer f.Close()
 	serial := uint32(405419896)
@@ -175,6 +255,8 @@ func checkSlowWire(c slowWire) *rp.Fail {
 
 func sweepSlowWire(yield func(slowWire) bool) {
 	cases := []slowWire{
+		{Kind: "closed-port", Op: "GetTime", Path: "udp", TimeoutMs: 400, Warm: 1},
+		{Kind: "closed-port", Op: "OpenDoor", Path: "udp", TimeoutMs: 300, Warm: 0, Debug: true},
 		{Kind: "queued", Op: "SetTime", Path: "udp", HoldMs: 1400, TimeoutMs: 400},
 		{Kind: "warm-then-slow", Op: "GetStatus", Path: "udp", TimeoutMs: 2600, Warm: 5, ReplyMs: 1500},
 		{Kind: "queued", Op: "SetTime", Path: "broadcast", HoldMs: 2300, TimeoutMs: 400, Debug: true},
